@@ -724,8 +724,8 @@ class GraphicsTerminal:
         self.out_display.flush()
         if self.tracked_cursor_position is not None:
             self.set_tracked_cursor_position(
-                col or self.tracked_cursor_position[0],
-                row or self.tracked_cursor_position[1],
+                col if col is not None else self.tracked_cursor_position[0],
+                row if row is not None else self.tracked_cursor_position[1],
             )
         elif row is not None and col is not None:
             self.set_tracked_cursor_position(
